@@ -11,6 +11,8 @@ CONSTANTS
     ResetMemoAtLastRelease = TRUE
     DropOnlyAtZero = TRUE
     DoneDuplicate = TRUE
+    ResolveDetached = TRUE
+    Cancels = TRUE
 SPECIFICATION TraceSpec
 CONSTRAINT HighWater
 INVARIANTS CountNonNegative HeldWhileCached HandlesMatchLayers
